@@ -786,6 +786,18 @@ mut("c07-eofmask-reverted", "C07", "seqio/scanner.go", "func (s Scanner) Err() e
 mut("c07-eofmask-errors-is-in-scan", "C07", "seqio/scanner.go", "\ts.res, s.err = s.p.Parse(s.s)\n\treturn s.err == nil\n", "\ts.res, s.err = s.p.Parse(s.s)\n\tif errors.Is(s.err, io.EOF) {\n\t\ts.err, s.end = nil, true\n\t\treturn false\n\t}\n\treturn s.err == nil\n", ["EOF-MASK|seqio.Scanner.Scan"], old2="import (\n", new2="import (\n\t\"errors\"\n")
 mut("c07-eofmask-silent-exhausted-inline", "C07", "seqio/scanner.go", "\tif s.exhausted() {\n\t\ts.end = true\n\t\treturn false\n\t}\n", "\tif done := s.exhausted(); done {\n\t\ts.end = done\n\t\treturn false\n\t}\n", silent=True)
 
+# ---------------------------------------------------------------- RANGE-PRECOND / INVERT on the empty collection
+mut("c15-rangepre-region-reverted", "C15", "seqio/genbank.go", "\t\tvar loc gts.Location = gts.Between(head)\n\t\tif head < tail {\n\t\t\tloc = gts.Range(head, tail)\n\t\t}\n", "\t\tvar loc gts.Location = gts.Range(head, tail)\n", ["RANGE-PRECOND|seqio.GenBank.String|Range#1"], note="the repaired defect, reintroduced")
+mut("c15-rangepre-region-guard-leq", "C15", "seqio/genbank.go", "\t\tif head < tail {\n\t\t\tloc = gts.Range(head, tail)\n", "\t\tif head <= tail {\n\t\t\tloc = gts.Range(head, tail)\n", ["RANGE-PRECOND|seqio.GenBank.String|Range#1"], note="<= lets the empty region through")
+mut("c15-rangepre-silent-mirrored-guard", "C15", "seqio/genbank.go", "\t\tif head < tail {\n\t\t\tloc = gts.Range(head, tail)\n", "\t\tif tail > head {\n\t\t\tloc = gts.Range(head, tail)\n", silent=True)
+mut("c15-rangepre-silent-negated-guard", "C15", "seqio/genbank.go", "\t\tif head < tail {\n\t\t\tloc = gts.Range(head, tail)\n\t\t}\n", "\t\tif !(head >= tail) {\n\t\t\tloc = gts.Range(head, tail)\n\t\t}\n", silent=True)
+mut("c03-rangepre-reference-reverted", "C03", "seqio/reference.go", "\t\tif end <= start {\n\t\t\treturn fmt.Errorf(\"reference range %d to %d is not ascending\", start+1, end)\n\t\t}\n", "", ["RANGE-PRECOND|seqio.parseReferenceInfo|Range#1"], note="the repaired defect, reintroduced")
+mut("c07-rangepre-reference-guard-after-reassign", "C07", "seqio/reference.go", "\t\tresult.SetValue(gts.Range(start, end))\n", "\t\tstart--\n\t\tstart++\n\t\tend--\n\t\tresult.SetValue(gts.Range(start, end))\n", ["RANGE-PRECOND|seqio.parseReferenceInfo|Range#1"], note="a bound changed after the guard: `5 to 5` passes the guard and reaches Range(4, 4)")
+mut("c15-rangepre-search-hit-from-other-source", "C15", "cmd/gts/search.go", "\t\t\tfwd := match(seq, query)\n", "\t\t\tfwd := match(seq, query)\n\t\t\tfwd = append(fwd, gts.Segment{0, 0})\n", ["RANGE-PRECOND|main.searchFunc|Range#1"], note="a segment that is not a hit reaches Range")
+mut("c15-rangepre-search-empty-query-guard-dropped", "C15", "sequence.go", "func Search(seq Sequence, query Sequence) []Segment {\n\tif Len(seq) == 0 || Len(query) == 0 {\n", "func Search(seq Sequence, query Sequence) []Segment {\n\tif Len(seq) == 0 {\n", ["RANGE-PRECOND|main.searchFunc|Range#1"], note="without the empty-query guard a hit may be empty")
+mut("c09-invert-circular-empty-reverted", "C09", "region.go", "\tif len(ss) == 0 || ss[0][0] == 0 || ss[len(ss)-1][1] == n {", "\tif ss[0][0] == 0 || ss[len(ss)-1][1] == n {", ["INVERT|gts.InvertCircular"], note="the repaired defect, reintroduced")
+mut("c09-invert-circular-silent-empty-early-return", "C09", "region.go", "\tif len(ss) == 0 || ss[0][0] == 0 || ss[len(ss)-1][1] == n {", "\tif len(ss) < 1 {\n\t\treturn rr\n\t}\n\tif ss[0][0] == 0 || ss[len(ss)-1][1] == n {", silent=True)
+
 # ---------------------------------------------------------------- refactoring round 3
 mut("c02-normalise-silent-tagless-switch", "C02", "location.go",
     "func (ranged Ranged) Shift(i, n int) Location {\n\tif n == 0 {\n\t\treturn ranged\n\t}\n\tif n < 0 {\n\t\treturn ranged.Expand(i, n)\n\t}\n",
